@@ -59,3 +59,18 @@ package transport
 //@ func NewWS
 //@   ensures result0 != nil && fresh(result0) && result0.Conn == c && result1 == nil
 //@   nopanic[C10]
+
+//@ func (*LegacyPKT).Drain
+//@   requires[C10] t.Conn != nil
+//@   inline
+//@   nopanic[C10]
+
+//@ func (*LegacyPKT).SendAccept
+//@   requires[C10] t.Writer != nil
+//@   inline
+//@   nopanic[C10]
+
+//@ func NewLegacy
+//@   ensures[C10] ready: result1 == nil ==> result0 != nil && fresh(result0) && result0.Conn != nil && result0.Writer != nil && result0.ChunkedReader != nil
+//@   ensures[C10] failed: result1 != nil ==> result0 == nil
+//@   nopanic[C10]
